@@ -26,9 +26,8 @@ func (c *ChoquetIntegralBiasListener) OnCriterionAdded(
 	newWeights := make(model.Weights, len(*newWeightsKeys))
 	for _, k := range *newWeightsKeys {
 		cKey := criterionKey(&k)
-		weight, ok := (*oldWeights)[cKey]
-		if ok {
-			newWeights[cKey] = weight
+		if _, ok := (*oldWeights)[cKey]; ok {
+			// capacities of the existing criteria are already part of the parameters
 			continue
 		}
 		originalKeyCriteriaWithoutNewOne := utils.RemoveSingleStringOccurrence(k, criterion.Id)
@@ -38,7 +37,8 @@ func (c *ChoquetIntegralBiasListener) OnCriterionAdded(
 		}
 		newWeights[cKey] = getWeightForCriteriaUnion(&originalKeyCriteriaWithoutNewOne, oldWeights)
 	}
-	return choquetParams{weights: &newWeights, criteria: &newCriteria}
+	addedCriteria := model.Criteria{*criterion}
+	return choquetParams{weights: &newWeights, criteria: &addedCriteria}
 }
 
 func (c *ChoquetIntegralBiasListener) OnCriteriaRemoved(
@@ -87,6 +87,8 @@ func (c *ChoquetIntegralBiasListener) Merge(params model.MethodParameters, addit
 	oldParams := params.(choquetParams)
 	newParams := addition.(choquetParams)
 	resultWeights := oldParams.weights.Merge(newParams.weights)
-	resultCriteria := append(*oldParams.criteria, *newParams.criteria...)
+	resultCriteria := make(model.Criteria, 0, len(*oldParams.criteria)+len(*newParams.criteria))
+	resultCriteria = append(resultCriteria, *oldParams.criteria...)
+	resultCriteria = append(resultCriteria, *newParams.criteria...)
 	return choquetParams{weights: resultWeights, criteria: &resultCriteria}
 }
